@@ -110,12 +110,14 @@ structure Quirks where
                        -- character) and after a string literal made by an inner `#`
   elifEval : Bool      -- the condition of `#elif` is evaluated although an earlier group of the section was taken (F11h, fixed in 8474bf0)
   pasteBlue : Bool     -- the tokens of a multi-token argument next to `##` that are not pasted are not rescanned
+  argInherit : Bool    -- NOT a behaviour of the code: arguments are macro replaced with the enclosing invocation's own name already
+                       -- disabled (the variant refuted by `expand_arg_inherit_counterexample`, Props/C11.lean)
   deriving DecidableEq, Repr
 
-def Quirks.code : Quirks := ⟨true, true, false, true⟩   -- elifEval: off since /repo commit 8474bf0 (F11h fixed)
+def Quirks.code : Quirks := ⟨true, true, false, true, false⟩   -- elifEval: off since /repo commit 8474bf0 (F11h fixed)
 /-- the code before commit 8474bf0 (kept for the record of F11h) -/
-def Quirks.before8474bf0 : Quirks := ⟨true, true, true, true⟩
-def Quirks.std : Quirks := ⟨false, false, false, false⟩
+def Quirks.before8474bf0 : Quirks := ⟨true, true, true, true, false⟩
+def Quirks.std : Quirks := ⟨false, false, false, false, false⟩
 
 def paint (q : Quirks) (l : List XTok) : List XTok := if q.pasteBlue then l.map fun t => { t with blue := true } else l
 
@@ -400,9 +402,14 @@ def expand (q : Quirks) (ms : List Macro) (dis : List Tok) (ts : List XTok) : Ex
                   match bindArgs m ps args with
                   | none => .error .wrongArgs
                   | some raw =>
-                    -- an argument is macro replaced only if its parameter occurs outside `#` / `##` (6.10.3.1)
+                    -- 6.10.3.1: an argument is completely macro replaced "as if it formed the rest of the preprocessing file":
+                    -- in the context `dis` of the CALLER — the invocation being replaced adds nothing to it, in particular not its
+                    -- own name `t.s` (that name is disabled only for the rescan of the replacement list, below).  Only if its
+                    -- parameter occurs outside `#` / `##`.
                     match args.zipIdx.attach.mapM (fun ⟨(a, i), _⟩ =>
-                        if plainUse ps m.body (min i (ps.length - 1)) then expand q ms dis a else .ok a) with
+                        if plainUse ps m.body (min i (ps.length - 1)) then
+                          (if q.argInherit then expand q ms (t.s :: dis) a else expand q ms dis a)
+                        else .ok a) with
                     | .error e => .error e
                     | .ok expd =>
                       -- `expd` are the replaced forms of `args`; bind them like the raw ones
